@@ -1,0 +1,14 @@
+//go:build verif
+
+package app
+
+import (
+	"github.com/cosmos/cosmos-sdk/crypto/keyring"
+)
+
+// SetKeyring injects the keyring the vote-extension handler signs with.
+// Verification harness only (build tag verif): lets one process hold one in-memory
+// keyring per validator instead of an encrypted file keyring.
+func (h *VoteExtHandler) SetKeyring(kr keyring.Keyring) {
+	h.kr = kr
+}
